@@ -7,6 +7,7 @@ import (
 
 	"verifsim/core"
 	_ "verifsim/sims/dbsim"
+	_ "verifsim/sims/ledgersim"
 	_ "verifsim/sims/migsim"
 	_ "verifsim/sims/queuesim"
 	_ "verifsim/sims/toysim"
